@@ -138,4 +138,46 @@ PROPS = {
         "unproved": ["parsing of text lines into records (strip/split) is tied by correspondence only"],
         "assumes": ["ASCII alphabet for case folding"],
     },
+    "C02": {
+        "level_text": "partial: kernel-checked theorems (exact reals) that zenith ∈ [0,180], azimuth ∈ "
+                      "[0,360), zenith = 90 − elevation, apparent = true − refraction(true), and that the "
+                      "published refraction model is ≥ 0, < 0.6° and zero from 85° up on the whole range; "
+                      "about a model compared bit-for-bit with the implementation. The 0.03° agreement "
+                      "with an independent ephemeris is not a theorem (DESIGN §9).",
+        "level_note": "Numerical agreement with an independent ephemeris is explored only by the "
+                      "failing-input search (Astronomical-Almanac oracle, measured headroom 0.013°).",
+        "lean_modules": ["Astral.Props.C02"],
+        "theorems": [
+            "Astral.C02.zenithOfCos_range", "Astral.C02.azimuthRaw_range", "Astral.C02.normAzimuth_range",
+            "Astral.C02.zenithAzimuthOf_range", "Astral.C02.sun_angle_ranges", "Astral.C02.elevation_def",
+            "Astral.C02.apparent_is_true_minus_model", "Astral.C02.apparent_elevation",
+            "Astral.C02.quartic_bounds", "Astral.C02.refraction_high", "Astral.C02.refraction_low",
+            "Astral.C02.refraction_bounds", "Astral.C02.apparent_minus_true",
+        ],
+        "groups": [G("corr_sun", "sun_angles", 4000, 150000), G("corr_sun", "sun_chain", 2800, 60000),
+                   G("corr_sun", "refraction", 2000, 40000), G("corr_julian", "julian", 1200, 20000)],
+        "unproved": ["agreement with an independent almanac-grade ephemeris to 0.03° (0.26° at the poles)"],
+        "assumes": ["IEEE rounding stays below the tolerances (bit-exact Float correspondence observed)"],
+    },
+    "C06": {
+        "level_text": "partial: kernel-checked theorems (exact reals, one declination and equation of "
+                      "time for the day) that the hour angle is strictly increasing in the target zenith, "
+                      "that effective zeniths are ordered like the depressions (refraction on or off, any "
+                      "elevation adjustment), hence the whole dawn…dusk chain is ordered around the "
+                      "transit; the UTC-day wrap moves an event by exactly 1440 minutes.",
+        "level_note": "The implementation evaluates declination/eqtime at each event's own first-pass "
+                      "time; the two-pass drift is not bounded by a theorem (chain_order_two_pass is "
+                      "left unproved) — the correspondence and the direct search cover it.",
+        "lean_modules": ["Astral.Props.C06"],
+        "theorems": [
+            "Astral.C06.hourAngle_ok", "Astral.C06.hourAngle_strictMono", "Astral.C06.hourAngle_setting_neg",
+            "Astral.C06.hourAngle_sign", "Astral.C06.event_order", "Astral.C06.wrap_is_one_day",
+            "Astral.C06.zEff_lt", "Astral.C06.chain_gaps",
+        ],
+        "groups": [G("corr_sun", "hour_angle", 3000, 60000), G("corr_sun", "transit", 2500, 60000),
+                   G("corr_sun", "sun_events", 2500, 60000), G("corr_sun", "refraction", 1000, 20000)],
+        "unproved": ["order of events computed with per-event declination (two-pass drift)"],
+        "assumes": ["shared declination and equation of time for one solar day",
+                    "cos(lat)·cos(decl) > 0 (latitude clamped to ±89.8°)"],
+    },
 }
